@@ -456,6 +456,21 @@ def run_partition_case(case, prop):
                     det = dict(det, via="icontract")
                     note(pred, det, step)
                 break
+            except Exception as e:
+                # a partition operation raised (on the unchanged code none does on these histories).  Whether that
+                # is acceptable is not C02's / C03's business - but the tree the failed operation leaves behind is
+                # still the user's tree: it is walked, and an inconsistent one is reported
+                obs["partition_operations_raising"] = obs.get("partition_operations_raising", 0) + 1
+                if prop == "C03":
+                    P._mon_skip_inv = True
+                    try:
+                        for pred, det in tree_problems(P):
+                            note(pred, dict(det, after_operation_raised=repr(e)[:120]), step)
+                    finally:
+                        P._mon_skip_inv = False
+                if not viol:
+                    return {"harness": "partition operation raised and left a consistent tree: %r (ops %s)" % (e, ops[-6:])}
+                break
             if prop == "C02":
                 for par in pars:
                     nsplit += 1
